@@ -103,7 +103,7 @@ CHECKS = {
         technique="partial claim by contract-based verification in an abstracted-float ('opaque') mode: the real cell_to_boundary, split_edges, normalize_longitudes and _get_pentagon are executed symbolically with every float an unknown value and float comparisons non-deterministic, so the list / control structure (vertex count, closure, defaults, argument frame) is verified for all cells; the geometric conjuncts are not claimed",
         category="proof",
         text=("IN PART (shape conjuncts). For every cell of resolutions 0..29 (face, segment, position symbolic) and closed_ring in {True, False, omitted} x segments in {omitted, None, "
-              "'auto', 1, 2, 3, 5, 7, 16}: len(cell_to_boundary) = (3 at resolution 1 else 5) * segments + (1 if closed_ring), with the default segments the integer >= 1 the code derives "
+              "'auto', 1, 2, 3, 5, 6, 7, 10, 16} (more values in the thorough tier): len(cell_to_boundary) = (3 at resolution 1 else 5) * segments + (1 if closed_ring), with the default segments the integer >= 1 the code derives "
               "from the resolution alone and closed_ring defaulting to true; with closed_ring the last vertex is the first; the options dictionary is not modified; the world cell gives []. "
               "_get_pentagon's vertex count is proved per resolution (for an arbitrary anchor) and used as a contract. Quick tier: resolutions 0-3, 5-7, 12, 29 for the option matrix; "
               "thorough: all. NOT decided: simple, counter-clockwise, no 180-degree jumps, span < 180, corners independent of segments (float geometry); latitude range is C02's."),
